@@ -66,7 +66,12 @@ def render(d, workdir):
         rec1 = render_part(d["p1"], five, with_name=False) if d["fkind"] == "file:" else \
             render_part(dict(d["p1"], restr="none"), five, with_name=False)
         rec2 = render_part(d["p2"], five, with_name=False)
-        files["ads.fasta"] = f">r1 first record\n{rec1}\n>r2\n{rec2}\n".encode()
+        # the adapter name is the first word of the header line, however the header is laid out
+        import zlib
+        v = zlib.crc32(json.dumps(d, sort_keys=True).encode())
+        h1 = (">r1 first record", "> r1 first record", ">r1\tfirst record", ">r1")[v % 4]
+        h2 = (">r2", ">r2 ", ">  r2\tx", ">r2 second")[(v // 4) % 4]
+        files["ads.fasta"] = f"{h1}\n{rec1}\n{h2}\n{rec2}\n".encode()
         spec = d["fkind"] + os.path.join(workdir, "ads.fasta") + params_only(d["fpar"])
     return typ, spec, files
 
